@@ -207,7 +207,16 @@ theorem stepGate_inv (cfg : Cfg) (s : MSt) (t : Nat) (a : Act) (h : GInv s) : GI
     simp only [stepGate]
     repeat' split
     all_goals (constructor <;> simp_all <;> omega)
-  | closeG => simp only [stepGate]; constructor <;> simp_all
+  | copen =>
+    simp only [stepGate]
+    repeat' split
+    all_goals (constructor <;> simp_all <;> omega)
+  | closeG =>
+    simp only [stepGate]
+    split
+    · exact ⟨ho, hc⟩
+    · constructor <;> simp_all
+  | cclose => simp only [stepGate]; constructor <;> simp_all
   | done id =>
     simp only [stepGate]
     obtain ⟨_, _, h3, h4, _, h6, h7, _⟩ := sinkStep_fields s id
